@@ -98,7 +98,8 @@ def table_cases(tier):
                 if kind == "same-missing" and side == "right":
                     continue
                 # the missing field bare, and passed through the case helpers (which hand a missing field through)
-                for form, m in (("bare", "r.nope"), ("lower", "lower(r.nope)"), ("upper", "upper(r.nope)")):
+                for form, m in (("bare", "r.nope"), ("lower", "lower(r.nope)"), ("upper", "upper(r.nope)"),
+                                ("attr", "r.nope.name"), ("attr2", "r.nope.val.year")):
                     x = ("%s %s %s" % (m, op, src)) if side == "left" else ("%s %s %s" % (src, op, m))
                     for cname, ctpl, _ in CONTEXTS:
                         if form != "bare" and cname not in ("bare", "not", "X-or-F"):
